@@ -23,6 +23,7 @@ import (
 	"oras.land/oras-go/v2/content/file"
 	"oras.land/oras-go/v2/content/memory"
 	"oras.land/oras-go/v2/content/oci"
+	"oras.land/oras-go/v2/errdef"
 	"pgregory.net/rapid"
 
 	"verif/harness/fsx"
@@ -60,6 +61,7 @@ type Case struct {
 
 var descMuts = []string{"exact", "exact", "exact", "wrongdigest", "neg1", "zero", "len-1", "len+1", "2len", "huge", "minint", "maxint",
 	"empty-digest", "nocolon", "badhexlen", "upperhex", "md5", "hex63", "hex65", "pathlike", "pathlike512"}
+
 // "bytesbuffer": the content sits in a *bytes.Buffer that the caller re-uses (resets
 // and refills) as soon as the push has returned
 var readerKinds = []string{"whole", "whole", "bytewise", "chunks", "zeroreads", "dataeof", "errat", "short", "long", "long", "corrupt", "bytesbuffer"}
@@ -625,11 +627,14 @@ func runStoreSink(ctx context.Context, c Case, desc ocispec.Descriptor, v verdic
 		err = st.Push(ctx, pushDesc, mk())
 	}
 	wg.Wait()
+	unnamedOverLimit := c.Sink == "file-unnamed" && desc.Size > 4<<20
 	goodNil := 0
 	if goodExists {
 		for g, e := range goodErrs {
 			if e == nil {
 				goodNil++
+			} else if unnamedOverLimit && errors.Is(e, errdef.ErrSizeExceedsLimit) {
+				// the file store's fallback holds at most 4 MiB per unnamed blob
 			} else if !isAlreadyExists(e) {
 				return res, vt.Failf("C05/good-push-rejected", "concurrent good push %d failed: %v", g, e)
 			}
